@@ -14,7 +14,8 @@ RULE = (
     "the second output, malformed arguments): a rejected request must leave every table and the "
     "file system exactly as before; (b) with two and three commands running, request mixes are "
     "submitted together in every arrival order and compared with the same requests sent one after "
-    "the other; (c) a request is delivered in full to a real RPCServerConnection serving the real "
+    "the other; (d) after every rejected request, every follow-up request of the same command has "
+    "the same reply and the same effect as without the rejected one; (c) a request is delivered in full to a real RPCServerConnection serving the real "
     "DirectorHandler while another task holds the database, the peer's EOF is injected at every "
     "later point, then the database is released; non-trivial: a rejected request, a concurrent "
     "mix, or a disconnect"
@@ -82,6 +83,17 @@ def jobs(tier, seed):
         out.append({"part": "a", "root": [("start", ()), ev], "depth": depth})
     out.append({"part": "b", "tier": tier})
     out.append({"part": "c", "tier": tier})
+    # (d) rejected requests leave nothing behind outside the database either
+    start = [("start", ())]
+    prefixes = [(start, ["./plan.py"]),
+                ([*start, ("req", "./plan.py", opx.MENU_STATIC[0])], ["./plan.py"]),
+                ([*start, ("req", "./plan.py", opx.MENU_STEPS[0])], ["./plan.py"]),
+                ([*start, ("req", "./plan.py", opx.MENU_STATIC[0]), ("req", "./plan.py", opx.MENU_STEPS[0])],
+                 ["./plan.py", "s1"]),
+                ([*start, ("req", "./plan.py", opx.MENU_STEPS[5])], ["./plan.py", "s3"])]
+    for prefix, labels in prefixes:
+        for label in labels:
+            out.append({"part": "d", "prefix": prefix, "labels": [label]})
     return out
 
 
@@ -256,9 +268,69 @@ def run_c(spec, acc):
     acc.sample({"disconnect_requests": [r[0] for r in requests]})
 
 
+FOLLOW_UPS = [opx.MENU_STATIC[0], opx.MENU_STATIC[4], opx.MENU_STEPS[0], opx.MENU_STEPS[2], opx.MENU_STEPS[7],
+              opx.MENU_AMEND[0], opx.MENU_AMEND[1], opx.MENU_AMEND[2], opx.MENU_AMEND[3], opx.MENU_AMEND[6],
+              ("amend_step", "$job", ["a"], [], [], []), ("amend_step", "$job", ["a", "d/e"], [], ["y9"], [])]
+D_REJECTED = LATE_FAILURES + [
+    # amendments that are refused after their inputs were looked at
+    ("amend_step", "$job", ["a"], [], ["a"], []),
+    ("amend_step", "$job", ["a", "d/e"], [], [".stepup/x"], []),
+    ("amend_step", "$job", ["a"], [], [], ["a"]),
+    ("amend_step", "$job", ["b", "a"], [], ["y1", "b"], []),
+]
+
+
+def run_d(spec, acc):
+    """A rejected request is a no-op for the future: from every state of the prefix list, for every
+    rejected request R and every follow-up request R2 by the same command, the state and the reply
+    after [R, R2] equal those after [R2] alone (nothing outside the rolled-back transaction may
+    remember R)."""
+    m = opx.Machine(menu=[], targets_menu=((),), exits=["ok"], fs_events=False, allow_kill=False)
+    prefix = spec["prefix"]
+    base = {}
+
+    def outcome(events):
+        st = m.replay(events)
+        last = st["info"]["last"]
+        reply = last["reply"] if last else None
+        if isinstance(reply, opx.RemoteFailure):
+            rep = ("rejected", reply.qualname, reply.message)
+        else:
+            rep = ("accepted", repr(reply))
+        return st["key"], st["raw"], rep
+
+    for label in spec["labels"]:
+        for r in D_REJECTED:
+            _, _, rep_r = outcome([*prefix, ("req", label, r)])
+            acc.evaluations += 1
+            if rep_r[0] != "rejected":
+                continue
+            for r2 in FOLLOW_UPS:
+                if (label, repr(r2)) not in base:
+                    base[(label, repr(r2))] = outcome([*prefix, ("req", label, r2)])
+                    acc.evaluations += 1
+                k0, raw0, rep0 = base[(label, repr(r2))]
+                k1, raw1, rep1 = outcome([*prefix, ("req", label, r), ("req", label, r2)])
+                acc.evaluations += 1
+                acc.transitions += 2
+                acc.states.add(k1)
+                acc.nontrivial.add(h8([prefix, label, r, r2]))
+                if k0 != k1 or rep0 != rep1:
+                    changed = {t: [x for x in raw1[t] if x not in raw0[t]] + [("-", x) for x in raw0[t] if x not in raw1[t]]
+                               for t in raw0 if raw0[t] != raw1[t]}
+                    acc.violation(f"C15|rejected-request-not-forgotten|{r[0]}>{r2[0]}",
+                                  {"why": "the same follow-up request has another effect after a rejected request",
+                                   "prefix": [repr(e)[:120] for e in prefix], "command": label,
+                                   "rejected": repr(r), "rejected_with": rep_r[1:],
+                                   "follow_up": repr(r2), "reply_alone": rep0, "reply_after_rejection": rep1,
+                                   "tables_that_differ": {t: v[:4] for t, v in changed.items()}}, None)
+
+
 def run_job(spec):
     acc = Acc()
-    if spec["part"] == "a":
+    if spec["part"] == "d":
+        run_d(spec, acc)
+    elif spec["part"] == "a":
         run_a(spec, acc)
     elif spec["part"] == "b":
         run_b(spec, acc)
